@@ -2,10 +2,14 @@ package main
 
 import (
 	"fmt"
+	"reflect"
 	"strconv"
 	"strings"
 
+	gio "github.com/whatap/golib/io"
 	"github.com/whatap/golib/lang/pack"
+	"github.com/whatap/golib/lang/value"
+	"github.com/whatap/golib/util/hash"
 	"verif/harness/vh"
 )
 
@@ -24,6 +28,194 @@ type RecSpec struct {
 	NoCat     bool `json:"no_cat,omitempty"`     // empty Category
 	Line0     bool `json:"line0,omitempty"`      // Line == 0
 	LongTag   int  `json:"long_tag,omitempty"`   // one tag whose key has this many bytes and whose value twice as many
+	// TagHash set by the caller (0: Write computes it from the tags).  The value is drawn from a small
+	// process-wide pool, so records with DIFFERENT tag tables share a hash, within a batch, across
+	// batches, across senders.
+	TagHash int64 `json:"tag_hash,omitempty"`
+	// ReuseOf: the caller recycles the pack object of that earlier record (already serialised by the
+	// sender), overwrites every field but forgets TagHash: the stale hash travels with the new tags.
+	ReuseOf int `json:"reuse_of,omitempty"`
+	// Bad: the record cannot be serialised — "niltags" (Tags == nil: Write panics), "nilpack" (a nil
+	// *LogSinkPack), "wrongtype" (queue only: an element that is not a *LogSinkPack).  Append recovers
+	// from the panic / the loop skips the element: the record is dropped and must leave no trace.
+	Bad string `json:"bad,omitempty"`
+}
+
+// ---------------------------------------------------------------- independent reference
+
+// Want is what a record carries on the wire, computed from the spec alone — not through the
+// encoder under test.
+type KV struct{ K, V string }
+type KI struct {
+	K string
+	V int64
+}
+type Want struct {
+	Pcode             int64
+	Oid, Okind, Onode int32
+	Time              int64
+	Category          string
+	TagHash           int64
+	Tags              []KV
+	Line              int64
+	Content           string
+	Fields            []KI
+}
+
+func refTagBytes(tags []KV) []byte {
+	o := gio.NewDataOutputX()
+	o.WriteByte(80) // VALUE_MAP
+	o.WriteDecimal(int64(len(tags)))
+	for _, kv := range tags {
+		o.WriteText(kv.K)
+		o.WriteByte(50) // VALUE_TEXT
+		o.WriteText(kv.V)
+	}
+	return o.ToByteArray()
+}
+
+// refEncode: pack.WritePack of a LogSinkPack, written out by hand on the primitive writers
+// (type code, AbstractPack header, version 0, Category, TagHash, Tags, Line, Content, optional Fields).
+func refEncode(w Want) []byte {
+	o := gio.NewDataOutputX()
+	o.WriteShort(0x170a)
+	if w.Okind|w.Onode == 0 {
+		o.WriteDecimal(w.Pcode)
+		o.WriteInt(w.Oid)
+		o.WriteLong(w.Time)
+	} else {
+		o.WriteByte(9)
+		o.WriteDecimal(w.Pcode)
+		o.WriteInt(w.Oid)
+		o.WriteInt(w.Okind)
+		o.WriteInt(w.Onode)
+		o.WriteLong(w.Time)
+	}
+	o.WriteByte(0)
+	o.WriteText(w.Category)
+	o.WriteDecimal(w.TagHash)
+	o.WriteBytes(refTagBytes(w.Tags))
+	o.WriteDecimal(w.Line)
+	o.WriteText(w.Content)
+	if len(w.Fields) > 0 {
+		o.WriteBool(true)
+		o.WriteByte(80)
+		o.WriteDecimal(int64(len(w.Fields)))
+		for _, kv := range w.Fields {
+			o.WriteText(kv.K)
+			o.WriteByte(20) // VALUE_DECIMAL
+			o.WriteDecimal(kv.V)
+		}
+	} else {
+		o.WriteBool(false)
+	}
+	return o.ToByteArray()
+}
+
+// carriedHash: the TagHash a record travels with when its TagHash field holds `field`
+func carriedHash(field int64, tags []KV) int64 {
+	if field == 0 && len(tags) > 0 {
+		return hash.Hash64(refTagBytes(tags)) // Write computes and stores it
+	}
+	return field
+}
+
+// want: the carried fields of the record described by the spec (TagHash field as the spec says)
+func (s RecSpec) want() Want {
+	w := Want{Pcode: int64(s.ID % 7), Oid: int32(s.ID * 31), Time: s.Time, Content: filler(s.ID, s.N, s.Fill)}
+	if s.ID%5 == 0 {
+		w.Okind = int32(s.ID)
+	}
+	if !s.NoCat {
+		w.Category = "cat" + strconv.Itoa(s.ID%3)
+	}
+	if !s.Line0 {
+		w.Line = int64(s.ID)
+	}
+	for i := 0; i < s.Tags; i++ {
+		w.Tags = append(w.Tags, KV{"k" + strconv.Itoa(i), "v" + strconv.Itoa(s.ID+i)})
+	}
+	if s.LongTag > 0 {
+		w.Tags = append(w.Tags, KV{strings.Repeat("K", s.LongTag), strings.Repeat("v", 2*s.LongTag)})
+	}
+	if !s.NilFields {
+		for i := 0; i < s.Fields; i++ {
+			w.Fields = append(w.Fields, KI{"f" + strconv.Itoa(i), int64(s.ID*10 + i)})
+		}
+	}
+	w.TagHash = carriedHash(s.TagHash, w.Tags)
+	return w
+}
+
+// fill writes the spec's field values into a pack object; TagHash is left to the caller
+func (s RecSpec) fill(p *pack.LogSinkPack) {
+	w := s.want()
+	p.Pcode, p.Oid, p.Okind, p.Onode, p.Time = w.Pcode, w.Oid, w.Okind, w.Onode, w.Time
+	p.Category, p.Line, p.Content = w.Category, w.Line, w.Content
+	p.Tags = value.NewMapValue()
+	for _, kv := range w.Tags {
+		p.Tags.PutString(kv.K, kv.V)
+	}
+	p.Fields = value.NewMapValue()
+	for _, kv := range w.Fields {
+		p.Fields.PutLong(kv.K, kv.V)
+	}
+	if s.NilFields {
+		p.Fields = nil
+	}
+}
+
+// wantOfDecoded reads a decoded LogSinkPack back into the comparable form
+func wantOfDecoded(ls *pack.LogSinkPack) Want {
+	w := Want{Pcode: ls.Pcode, Oid: ls.Oid, Okind: ls.Okind, Onode: ls.Onode, Time: ls.Time,
+		Category: ls.Category, TagHash: ls.TagHash, Line: ls.Line, Content: ls.Content}
+	if ls.Tags != nil {
+		ks := ls.Tags.Keys()
+		for ks.HasMoreElements() {
+			k := ks.NextString()
+			v := ls.Tags.Get(k)
+			if tv, ok := v.(*value.TextValue); ok {
+				w.Tags = append(w.Tags, KV{k, tv.Val})
+			} else {
+				w.Tags = append(w.Tags, KV{k, fmt.Sprintf("<%T>", v)})
+			}
+		}
+	}
+	if ls.Fields != nil {
+		ks := ls.Fields.Keys()
+		for ks.HasMoreElements() {
+			k := ks.NextString()
+			v := ls.Fields.Get(k)
+			if dv, ok := v.(*value.DecimalValue); ok {
+				w.Fields = append(w.Fields, KI{k, dv.Val})
+			} else {
+				w.Fields = append(w.Fields, KI{k, -999999})
+			}
+		}
+	}
+	return w
+}
+
+// diffWant names the first field in which two records differ ("" when equal)
+func diffWant(got, want Want) string {
+	clip := func(x interface{}) string { return vh.Clip(fmt.Sprint(x), 120) }
+	switch {
+	case got.Pcode != want.Pcode || got.Oid != want.Oid || got.Okind != want.Okind || got.Onode != want.Onode || got.Time != want.Time:
+		return fmt.Sprintf("header: emitted %d/%d/%d/%d/%d, handed in %d/%d/%d/%d/%d", got.Pcode, got.Oid, got.Okind, got.Onode, got.Time, want.Pcode, want.Oid, want.Okind, want.Onode, want.Time)
+	case got.Category != want.Category:
+		return "Category: emitted " + clip(got.Category) + ", handed in " + clip(want.Category)
+	case got.TagHash != want.TagHash:
+		return fmt.Sprintf("TagHash: emitted %d, handed in %d", got.TagHash, want.TagHash)
+	case !reflect.DeepEqual(got.Tags, want.Tags) && (len(got.Tags) > 0 || len(want.Tags) > 0):
+		return "Tags: emitted " + clip(got.Tags) + ", handed in " + clip(want.Tags)
+	case got.Line != want.Line:
+		return fmt.Sprintf("Line: emitted %d, handed in %d", got.Line, want.Line)
+	case got.Content != want.Content:
+		return "Content: emitted " + clip(got.Content) + ", handed in " + clip(want.Content)
+	case !reflect.DeepEqual(got.Fields, want.Fields) && (len(got.Fields) > 0 || len(want.Fields) > 0):
+		return "Fields: emitted " + clip(got.Fields) + ", handed in " + clip(want.Fields)
+	}
+	return ""
 }
 
 func filler(id, n, kind int) string {
@@ -45,56 +237,40 @@ func filler(id, n, kind int) string {
 	return string(b)
 }
 
-// Build makes the record.  Oid is unique per id, so two records of a case never share an
-// encoding even when Line, Content, Category and Time are all empty/zero.
+// Build makes a fresh pack object for the spec (TagHash field as the spec says).  Oid is unique per id,
+// so two records of a case never share an encoding even when everything else is empty/zero.
 func (s RecSpec) Build() *pack.LogSinkPack {
+	switch s.Bad {
+	case "nilpack", "wrongtype":
+		return nil
+	}
 	p := pack.NewLogSinkPack()
-	p.Time = s.Time
-	p.Pcode = int64(s.ID % 7)
-	p.Oid = int32(s.ID * 31)
-	if s.ID%5 == 0 {
-		p.Okind = int32(s.ID)
-	}
-	if !s.NoCat {
-		p.Category = "cat" + strconv.Itoa(s.ID%3)
-	}
-	if !s.Line0 {
-		p.Line = int64(s.ID)
-	}
-	p.Content = filler(s.ID, s.N, s.Fill)
-	for i := 0; i < s.Tags; i++ {
-		p.Tags.PutString("k"+strconv.Itoa(i), "v"+strconv.Itoa(s.ID+i))
-	}
-	if s.LongTag > 0 {
-		p.Tags.PutString(strings.Repeat("K", s.LongTag), strings.Repeat("v", 2*s.LongTag))
-	}
-	for i := 0; i < s.Fields; i++ {
-		p.Fields.PutLong("f"+strconv.Itoa(i), int64(s.ID*10+i))
-	}
-	if s.NilFields {
-		p.Fields = nil
+	s.fill(p)
+	p.TagHash = s.TagHash
+	if s.Bad == "niltags" {
+		p.Tags = nil
 	}
 	return p
 }
 
-// Rec is a built record with its reference encoding (pack.WritePack).
+// Rec is a record as handed to the sender, with what it must carry on the wire.
 type Rec struct {
-	Spec RecSpec
-	P    *pack.LogSinkPack
-	Enc  []byte
+	Spec            RecSpec
+	P               *pack.LogSinkPack
+	Other           pack.Pack // Bad == "wrongtype": what is put on the queue instead
+	Want            Want
+	Enc             []byte // reference encoding (refEncode of Want): independent of the encoder under test
+	Bad             bool
+	recycled, taken bool // ReuseOf bookkeeping
 }
 
-// NewRec builds the record and its reference encoding.  A nil Fields map encodes exactly like an
-// empty one ("no fields"), so the reference bytes are taken from that twin: they do not depend on
-// how the encoder treats the nil.
 func NewRec(s RecSpec) *Rec {
-	p := s.Build()
-	twin := s
-	if s.NilFields {
-		twin.NilFields = false
-		twin.Fields = 0
+	r := &Rec{Spec: s, P: s.Build(), Want: s.want(), Bad: s.Bad != ""}
+	r.Enc = refEncode(r.Want)
+	if s.Bad == "wrongtype" {
+		r.Other = pack.NewZipPack()
 	}
-	return &Rec{Spec: s, P: p, Enc: pack.ToBytesPack(twin.Build())}
+	return r
 }
 
 // longEnc: encodings longer than this are represented to the model by their length only
@@ -110,6 +286,9 @@ func (r *Rec) modelBytes() []byte {
 }
 
 func (r *Rec) line() string {
+	if r.Bad {
+		return fmt.Sprintf("%d:%d:!", r.Spec.ID, r.Spec.Time)
+	}
 	if len(r.Enc) > longEnc {
 		return fmt.Sprintf("%d:%d:#%d", r.Spec.ID, r.Spec.Time, len(r.Enc))
 	}
@@ -303,6 +482,15 @@ func (c *Case) allSpecs() []RecSpec {
 
 func (s RecSpec) flags() string {
 	f := ""
+	if s.Bad != "" {
+		f += "!" + s.Bad
+	}
+	if s.TagHash != 0 {
+		f += "H" + strconv.FormatInt(s.TagHash, 10)
+	}
+	if s.ReuseOf != 0 {
+		f += "R" + strconv.Itoa(s.ReuseOf)
+	}
 	if s.NilFields {
 		f += "F"
 	}
